@@ -24,6 +24,7 @@ ASSUMPTIONS = [
     "A2/A3 of vsched (see C01); callbacks do not call back into the router (the property's own restriction)",
     "the lock itself is covered by C01-C03/C12; here any locking scheme that makes operations atomic is accepted",
     "programs: up to 3 pre-subscribed observers, 2-4 threads, <= 3 operations each, keys of depth <= 2; schedules are sampled, not exhausted",
+    "a further batch runs on the access-instrumented build with 0.5-3.3 % of the plain memory accesses turned into scheduling points (torn executions)",
     "some notify/exists/depth calls are issued from inside a callback of a second router (the caller then holds that router's read lock); the second router is never written",
 ]
 
@@ -138,6 +139,16 @@ def check(pid, tier, seed):
     count = {"quick": 1500, "thorough": 120000}[tier]
     script, cfgs = programs(seed, count)
     res = common.run_harness(exe, script)
+    # torn executions: on the access-instrumented build a share of the plain memory accesses are scheduling points too, so the
+    # operations are not atomic between lock operations any more (adds no behaviour while the router's locking makes it
+    # data-race-free; without mutual exclusion the tree really gets torn)
+    from components import races
+    count2 = {"quick": 1200, "thorough": 30000}[tier]
+    script2, cfgs2 = programs("%s-torn" % seed, count2)
+    script2 = "\n".join((l.replace("X c", "X a", 1) + " accy=%d" % (500 + 700 * (k % 5))) if l.startswith("X c") else l for k, l in enumerate(script2.split("\n")))
+    cfgs2 = {"a" + x[1:]: c + " accy=on" for x, c in cfgs2.items()}
+    res.update(common.run_harness(races._race_build("concrouter_race", "observer/conc_router_harness.cpp", REPO_SRC), script2))
+    cfgs.update(cfgs2)
     execs = {x: events(res.get(x, [])) for x in cfgs}
     acc, rej, tst = tracecheck.validate(SPEC, "ConcRouterTraceMC.tla", "ConcRouterTrace.cfg", execs)
     log("[%s] %d executions (%d distinct), %d rejected, TLC %d states %.1fs" % (pid, len(execs), tst["distinct_traces"], len(rej), tst["tlc_states_generated"], tst["tlc_wall_s"]))
